@@ -221,9 +221,20 @@ class MaybeEncodingError(Exception):
     safely sent through the socket."""
 
     def __init__(self, exc, value):
-        self.exc = repr(exc)
-        self.value = repr(value)
+        self.exc = self._safe_repr(exc)
+        self.value = self._safe_repr(value)
         super().__init__(self.exc, self.value)
+
+    @staticmethod
+    def _safe_repr(obj):
+        # a value that cannot be pickled may not have a usable repr()
+        # either (e.g. data nested deeper than the recursion limit); the
+        # error report must not fail because of that.
+        try:
+            return repr(obj)
+        except Exception as exc:
+            return '<%s object at 0x%x (repr() failed: %s)>' % (
+                type(obj).__name__, id(obj), type(exc).__name__)
 
     @classmethod
     def _rebuild(cls, exc, value):
